@@ -87,7 +87,7 @@ step_st = st.one_of(
     st.tuples(st.just("mapg"), st.sampled_from(sorted(STATIC)), st.sampled_from(["pos", "kw", "partial"])).map(list),
     st.tuples(st.just("reduce"), st.sampled_from(["red", "red_other"])).map(list),
     st.tuples(st.just("yields"), st.sampled_from(["gen"])).map(list),
-    st.tuples(st.just("binary"), st.sampled_from(["subtract", "add"]), st.sampled_from(["fwd", "rev"])).map(list),
+    st.tuples(st.just("binary"), st.sampled_from(["subtract", "add", "multiply", "divide"]), st.sampled_from(["fwd", "rev"])).map(list),
     st.tuples(st.just("reduce_order"), st.sampled_from(["asc", "desc"])).map(list),
     st.tuples(st.just("stack"), st.sampled_from([0, 1, -1]), st.sampled_from(["default", "own_dict"])).map(list),
 )
@@ -114,7 +114,10 @@ def name_cases(draw):
             else:
                 s[2] = draw(st.sampled_from(["pos", "kw", "partial"]))
         elif s[0] == "binary":
-            s[2] = "rev" if s[2] == "fwd" else "fwd"  # same operation, same operands, other operand order
+            if draw(st.booleans()):
+                s[2] = "rev" if s[2] == "fwd" else "fwd"  # same operation, same operands, other operand order
+            else:
+                s[1] = draw(st.sampled_from([o for o in ("subtract", "add", "multiply", "divide") if o != s[1]]))  # other library operation
         elif s[0] == "reduce_order":
             s[1] = "desc" if s[1] == "asc" else "asc"
         elif s[0] == "reduce":
@@ -239,6 +242,11 @@ def _f6_signature(n1, n2, memo) -> bool:
     f1, a1, k1 = n1.payload
     f2, a2, k2 = n2.payload
     if getattr(f1, "__name__", "") != getattr(f2, "__name__", ""):
+        return False
+    if f1 is not f2 and str(getattr(f1, "__module__", "")).startswith("earthkit.workflows") \
+            and str(getattr(f2, "__module__", "")).startswith("earthkit.workflows"):
+        # F6 is about callables the USER supplies (lambdas, functions of equal __name__); two different operations of the library
+        # itself ending up under one name is not that finding
         return False
     if str(a1) != str(a2) or str(k1) != str(k2) or list(n1.outputs) != list(n2.outputs):
         return False
